@@ -78,6 +78,9 @@ type Exec struct {
 	s          *Solver
 	globals    map[*ssa.Global]*Value
 	stdGlobals map[*ssa.Global]*Value
+	decodeSet  bool // zzverif.DecodesTo: what the next json.Decoder.Decode yields
+	decodeVal  Value
+	decodeErr  Iface
 	facts      map[*Term]bool // conditions decided on the current path (syntactic implied-branch cache)
 	factHits   int
 	uniq       map[string]*Value // unique.Make interning table (lives as long as stdGlobals)
@@ -461,7 +464,21 @@ func (x *Exec) concretize(fr *frame, t *Term, what string) uint64 {
 				abortf("concretize(%s): no model value", what)
 			}
 		}
-		if x.decideVal(fr, x.f.Eq(t, x.f.Const(t.w, v)), v, true) {
+		// not through the fact cache: the replay above reads the value from the trace entry
+		// this decision creates
+		eq := x.f.Eq(t, x.f.Const(t.w, v))
+		if eq.IsConst() {
+			if eq.val == 1 {
+				return v
+			}
+			continue
+		}
+		r := x.decideVal0(fr, eq, v, true)
+		if x.facts == nil {
+			x.facts = map[*Term]bool{}
+		}
+		x.facts[eq] = r
+		if r {
 			return v
 		}
 	}
@@ -675,6 +692,7 @@ func (x *Exec) runPath(fn *ssa.Function) {
 	x.globals = map[*ssa.Global]*Value{}
 	x.pos = 0
 	x.facts = nil
+	x.decodeSet, x.decodeVal, x.decodeErr = false, nil, Iface{}
 	x.ndlog = nil
 	x.ndCount = 0
 	x.steps, x.blocks = 0, 0
